@@ -6,10 +6,12 @@ Kept as data so that MANIFEST.json, the check driver and the evidence writer agr
 # --------------------------------------------------------------------------------------------- Verus units
 # unit name -> template under units/, rlimit, the functions whose entry must be reachable (vacuity twins)
 UNITS = {
-    "comm": dict(template="units/comm.vt.rs", rlimit=200,
+    "comm": dict(template="units/comm.vt.rs", rlimit=300, portfolio=4,
                  about="the poll()-driven exchange loop of communicate.rs (unix variant) against the exchange model"),
-    "spawn": dict(template="units/spawn.vt.rs", rlimit=400,
+    "spawn": dict(template="units/spawn.vt.rs", rlimit=400, portfolio=3,
                   about="Popen::create / os_start / setup_streams / do_exec / set_inheritable / make_pipe against the spawn world (descriptor sets, child image, launch-status pipe)"),
+    "builder": dict(template="units/builder.vt.rs", rlimit=300, portfolio=4,
+                    about="Exec builder methods and terminators, stream adapters and their drop glue, Pipeline (composition, popen loop, join, capture, communicate, stream_*) against the builder world (log of started stages)"),
     "pstate": dict(template="units/pstate.vt.rs", rlimit=50,
                    about="the Popen child-state machine (waitpid/wait/wait_timeout/poll/terminate/kill/send_signal/Drop) against the one-child process model"),
 }
@@ -24,6 +26,10 @@ PROPS = {
     "C06": dict(units=["spawn"], kani=["w_fork_ids", "w_os_to_cstring_b4"], level="proof"),
     "C07": dict(units=["spawn"], kani=["w_pipe", "w_fork_ids"], level="proof"),
     "C18": dict(units=["spawn"], kani=["w_reset_sigpipe"], level="proof"),
+    "C12": dict(units=["builder", "pstate"], kani=[], level="proof"),
+    "C13": dict(units=["builder"], kani=[], level="proof"),
+    "C14": dict(units=["builder"], kani=[], level="proof"),
+    "C16": dict(units=["builder"], kani=[], level="proof"),
     "C09": dict(units=["pstate"], kani=["w_decode_exit_status", "w_waitpid"], level="proof"),
     "C10": dict(units=["pstate"], kani=["w_kill"], level="proof"),
     "C11": dict(units=["pstate"], kani=[], level="proof"),
@@ -33,6 +39,9 @@ PROPS = {
 # (property, regex on obligation id) -> scenario binary (scenarios/src/bin/<name>.rs) and what it shows.
 # A scenario exits 1 and prints FAIL when the real crate, built from /repo's working tree, misbehaves.
 SCENARIOS = [
+    ("C12", r"builder:.*(drop_impl|drop_glue_read|drop_glue_popen).*", "d7_read_adapter_drop"),
+    ("C14", r"builder:.*popen:precondition:drop_glue_vec_popen:.*all_wait_safe", "d8_pipeline_partial_failure"),
+    ("C12", r"builder:.*popen:precondition:drop_glue_vec_popen:.*all_wait_safe", "d8_pipeline_partial_failure"),
     ("C05", r"spawn:.*setup_streams:ensures:stdout is Merge && stderr is Merge", "d1_merge_merge"),
     ("C06", r"spawn:.*do_exec:precondition:setgid:.*uid\.is_none", "d4_setuid_setgid"),
     ("C07", r"spawn:.*(create|os_start):ensures:r is Err .*child_unreaped", "d5_detached_zombie"),
@@ -44,6 +53,15 @@ SCENARIOS = [
 # --------------------------------------------------------------------------------------------- assumptions
 # free-text trusted base per unit (in addition to the mechanically listed external_body/axiom items)
 UNIT_TRUST = {
+    "builder": [
+        "builder world (units/models/buildw.rs, buildw_shims2.rs): Popen::create appends one stage recording what it was given and returns a Running handle holding a parent end exactly for Pipe streams (contract proved in unit spawn); wait/drop contracts restated from unit pstate; a blocking wait is assumed not to fail",
+        "drop glue (units/models/buildw_glue.rs) is written per the Rust reference (own Drop::drop, then fields in declaration order; Vec elements in order); explicit drop elaboration is inserted at the `?`/return sites of Pipeline::popen, join and capture",
+        "wait-safety is demanded only of waits the library causes implicitly (drop glue); a user who asks join() for a pipe nobody reads is outside the claim",
+        "R6 seams: map_stderr / map_detached = into_iter().map(f).collect(); Vec::drain(..1)/drain(len-1..) = remove(0)/pop(); enumerate loop = index loop with remove(0); Vec::extend(iter.map(f)) = push loop; env_retain_ne = Vec::retain with a destructuring closure; Path = its OsStr",
+        "`impl AsRef<OsStr>` arguments are modelled by a local AsRef trait exposing the bytes; `impl Into<..>` parameters are rewritten to named type parameters (identical semantics)",
+        "From<Redirection> for InputRedirection (panics on Merge) and the NullFile conversions are not verified here",
+        "format_env (duplicate keys: last wins) is outside this unit",
+    ],
     "spawn": [
         "spawn world (units/models/spawn.rs): pipe() yields two fresh inheritable ends >= 3 (the parent's 0..2 are open); fork copies the descriptor table; "
         "dup2(f, n) makes n refer to f's open file; the launch-status pipe delivers EOF iff exec happened, else exactly the 4 bytes the child wrote",
